@@ -165,9 +165,14 @@ def gen_race(rng, h):
         if known:
             n, v, si = rng.choice(known)
         return {"user": u, "flavor": fl, "name": n, "op": "undeclare", "version": v, "stack": None, "tag": None, "vat": False}
-    gate = [rng.choice(["after_load", "after_load", "at_open"]), rng.choice([0, 0, 1, 2, 3])]
-    warm = {"op": "query", "user": u, "flavor": fl}          # A reads caches that are current: its constructor unpickles
-    return [warm, {"op": "race", "user": u, "flavor": fl, "gate": gate, "a": one(), "b": one()}]
+    if rng.random() < 0.25:
+        # A's constructor rebuilds (its caches are gone) and B lands between its scan of the database and its save()
+        gate = ["at_save", rng.choice([0, 0, 1])]
+        pre = [{"op": "clearcache", "user": u}]
+    else:
+        gate = [rng.choice(["after_load", "after_load", "at_open"]), rng.choice([0, 0, 1, 2, 3])]
+        pre = [{"op": "query", "user": u, "flavor": fl}]      # A reads caches that are current: its constructor unpickles
+    return pre + [{"op": "race", "user": u, "flavor": fl, "gate": gate, "a": one(), "b": one()}]
 
 
 def gen_case(rng):
@@ -245,7 +250,9 @@ def check_case(ctx, case, steps, msteps):
             if rec["out"] != "ok":
                 raise common.InfraError("race child failed: %s" % (rec["out"],))
             ctx.hist("race: two unserialised writers")
-            ctx.hist("race: B ran %s" % ("inside A's reload" if str(ra.get("fired")).startswith(("after_load", "at_open")) else "after A's constructor"))
+            fired = str(ra.get("fired"))
+            ctx.hist("race: B ran %s" % ("inside A's reload" if fired.startswith(("after_load", "at_open")) else
+                                         "before a save() of A" if fired.startswith("at_save") else "after A's constructor"))
             ctx.hist("race: A=%s/%s B=%s/%s" % (cmd["a"]["op"], ra.get("a", ["?"])[0], cmd["b"]["op"], ra.get("b")))
             continue
         if cmd["op"] == "live2":
